@@ -346,6 +346,9 @@ package keeper
 //@   at RenewOrder assert [C04.renew.quote] order.Amount.Denom == BondDenom && order.Operation == 3 && (order.Size_ <= MaxInt64 ==>
 //@       order.Amount.Amount == div(1000000000000 * order.Replica * order.Size_ * order.Duration, 1000000000000000000)
 //@            + (mod(1000000000000 * order.Replica * order.Size_ * order.Duration, 1000000000000000000) == 0 ? 0 : 1))
+//@   at SetShard assert [C07.renew.topup.stored] [C14.renew.topup.stored] [C02.renew.topup.stored] [C06.renew.topup.stored]
+//@       newPledge.Amount > Shard[shard.Id].Pledge.Amount && iter(has(Pledge, shard.Sp)) ==> has(Pledge, shard.Sp)
+//@       && Pledge[shard.Sp].TotalShardPledged.Amount == iter(Pledge[shard.Sp].TotalShardPledged.Amount) + newPledge.Amount - Shard[shard.Id].Pledge.Amount
 //@   at SetPledge assert [C07.renew.topup] [C14.renew.topup] [C02.renew.topup] [C06.renew.topup] has(Pledge, shard.Sp) ==> pledge.TotalShardPledged.Amount == Pledge[shard.Sp].TotalShardPledged.Amount + extraPledge.Amount
 //@       && pledge.TotalStoragePledged == Pledge[shard.Sp].TotalStoragePledged && pledge.TotalStorage == Pledge[shard.Sp].TotalStorage && pledge.UsedStorage == Pledge[shard.Sp].UsedStorage
 //@   at SetShard assert [C07.renew.shardpledge] shard.Pledge.Amount >= Shard[shard.Id].Pledge.Amount && shard.Pledge.Amount >= newPledge.Amount
@@ -490,6 +493,11 @@ package keeper
 //@       && old(has(Shard, i)) && old(Shard[i].Sp) == old(Shard[shard.Id].From) && contains(old(Order[msg.OrderId].Shards), i)
 //@       && shard.RenewInfos == old(Shard[i].RenewInfos) && shard.OrderId == old(Shard[i].OrderId) && shard.CreatedAt == H
 //@       && u64(shard.CreatedAt + shard.Duration) == u64(old(Shard[i].CreatedAt + Shard[i].Duration))
+//@   ensures [C13.complete.scheduled] [C11.complete.scheduled] err == nil ==> exists j int :: 0 <= j && j < len(old(Order[msg.OrderId].Shards))
+//@       && has(Shard, old(Order[msg.OrderId].Shards)[j]) && Shard[old(Order[msg.OrderId].Shards)[j]].Sp == msg.Provider
+//@       && Shard[old(Order[msg.OrderId].Shards)[j]].Status == ShardCompleted
+//@       && has(ExpiredShard, u64(Shard[old(Order[msg.OrderId].Shards)[j]].CreatedAt + Shard[old(Order[msg.OrderId].Shards)[j]].Duration))
+//@       && contains(ExpiredShard[u64(Shard[old(Order[msg.OrderId].Shards)[j]].CreatedAt + Shard[old(Order[msg.OrderId].Shards)[j]].Duration)].ShardList, old(Order[msg.OrderId].Shards)[j])
 //@   ensures [C16.complete.status] err == nil && old(forall j int :: 0 <= j && j < len(Order[msg.OrderId].Shards) && has(Shard, Order[msg.OrderId].Shards[j]) && Shard[Order[msg.OrderId].Shards[j]].Sp == msg.Provider ==> Shard[Order[msg.OrderId].Shards[j]].Status != ShardMigrating) ==> has(Order, msg.OrderId) && Order[msg.OrderId].Status == OrderCompleted
 //@   ensures [C04.complete.deposit] [C06.complete.deposit] err == nil && old(forall j int :: 0 <= j && j < len(Order[msg.OrderId].Shards) && has(Shard, Order[msg.OrderId].Shards[j]) && Shard[Order[msg.OrderId].Shards[j]].Sp == msg.Provider ==> Shard[Order[msg.OrderId].Shards[j]].Status != ShardMigrating) && old(Order[msg.OrderId].Status) != OrderCompleted && moduleAddr("order") != moduleAddr("market")
 //@       && old(Order[msg.OrderId].Operation) != 2 && addr(msg.Provider) != moduleAddr("order") && moduleAddr("node") != moduleAddr("order") ==>
